@@ -88,11 +88,17 @@ def append_verdict(cur, new):
     return "accept"
 
 
-def read_impl(path):
+def read_impl(path, route="name"):
     import thejoker as tj
 
     if not os.path.exists(path):
         return None
+    if route == "h5file":
+        # documented alternative: an open h5py.File instead of a file name
+        import h5py
+
+        with h5py.File(path, "r") as f:
+            return T.from_impl(tj.JokerSamples.read(f))
     return T.from_impl(tj.JokerSamples.read(path))
 
 
@@ -126,7 +132,7 @@ def apply_op(path, model, op):
         return model, None
     if op[0] == "read":
         try:
-            got = read_impl(path)
+            got = read_impl(path, op[1] if len(op) > 1 else "name")
         except Exception as e:
             if model is None:
                 return model, None
@@ -135,18 +141,46 @@ def apply_op(path, model, op):
             return model, (None if got is None else "read of a missing file returned data")
         d = T.diff(got, model)
         return model, ("read: " + d) if d else None
-    _, tname, mode = op
+    tname, mode = op[1], op[2]
+    route = op[3] if len(op) > 3 else "name"
     new = _norm(table(tname))
     s = T.to_impl(new)
-    before = sha(path)
     kw = dict(overwrite=(mode in ("overwrite", "append_overwrite")), append=(mode in ("append", "append_overwrite")))
-    try:
-        s.write(path, **kw)
-        raised = None
-    except Exception as e:
-        raised = e
-    after = sha(path)
-    if mode in ("overwrite", "append_overwrite"):
+    if route == "h5file":
+        # documented alternative: the output is an open h5py.File. Opening / closing a file may touch its bytes, so "unaltered"
+        # is judged on what the file reads back as
+        import h5py
+
+        def logical(p):
+            try:
+                m0 = read_impl(p)
+                return None if m0 is None else m0.key()
+            except Exception as e:
+                return ("unreadable", type(e).__name__)
+
+        before = logical(path) if model is not None else None
+        try:
+            with h5py.File(path, "a") as f:
+                s.write(f, **kw)
+            raised = None
+        except Exception as e:
+            raised = e
+        after = logical(path) if (model is not None or raised is None) else None
+        if raised is not None and model is None and os.path.exists(path):
+            os.unlink(path)  # an empty container created by the harness itself
+    else:
+        before = sha(path)
+        try:
+            s.write(path, **kw)
+            raised = None
+        except Exception as e:
+            raised = e
+        after = sha(path)
+    if route == "h5file" and mode == "overwrite" and model is not None:
+        # overwrite=True is documented for file NAMES ("overwrite the existing file"); with an open file either a refusal
+        # (file unaltered) or the replacement of the table is acceptable
+        verdict, result = "either_replace", new
+    elif mode in ("overwrite", "append_overwrite"):
         # append=True together with overwrite=True is documented as "only the dataset is replaced"
         verdict, result = "accept", new
     elif mode == "plain":
@@ -160,6 +194,11 @@ def apply_op(path, model, op):
         if verdict == "either":
             # metadata of the merged file: the property does not fix it; take what the file reports for t_ref
             pass
+    if verdict == "either_replace":
+        if raised is not None:
+            verdict, result = "refuse", model
+        else:
+            verdict = "accept"
     if raised is not None:
         if verdict == "accept":
             return model, f"{mode} write of {tname} refused: {type(raised).__name__}: {raised}"
@@ -191,6 +230,8 @@ def expand(args):
     part = core.Part()
     out = []
     ops = [("read",), ("batch",)] + [("write", t, m) for t in TABLES for m in MODES]
+    # the same operations through an open h5py.File (documented alternative to a file name), on a sub-alphabet of tables
+    ops += [("read", "h5file")] + [("write", t, m, "h5file") for t in ("A", "B", "C", "F") for m in MODES]
     for oi, op in enumerate(ops):
         # ONE path per worker process, reused for every state and operation: anything keyed on the file name
         # (a cache) sees the same name with different contents - forced collisions
